@@ -51,7 +51,8 @@ from spyne.model.binary import binary_decoding_handlers, BINARY_ENCODING_USE_DEF
 
 from spyne.util import six
 from spyne.model.enum import EnumBase
-from spyne.model.primitive.datetime import TIME_PATTERN, DATE_PATTERN
+from spyne.model.primitive.datetime import TIME_PATTERN, DATE_PATTERN, \
+                                                                 OFFSET_PATTERN
 
 from spyne.util.cdict import cdict
 
@@ -69,7 +70,7 @@ def _is_native(value, native_type, excluded=()):
 
 
 _date_re = re.compile(DATE_PATTERN)
-_time_re = re.compile(TIME_PATTERN + '$')
+_time_re = re.compile(TIME_PATTERN + '(?P<tz>Z|' + OFFSET_PATTERN + ')?$')
 _duration_re = re.compile(
         r'(?P<sign>-?)'
         r'P'
@@ -426,9 +427,25 @@ class InProtocolBase(ProtocolMixin):
         else:
             microsec = min(999999, int(round(float(microsec) * 1e6)))
 
+        tz = None
+        if fields['tz'] == 'Z':
+            tz = pytz.utc
+
+        elif fields['tz'] != 0:
+            tz_min = int(fields['tz_hr']) * 60
+            if fields['tz_hr'].startswith('-'):
+                tz_min -= int(fields['tz_min'])
+            else:
+                tz_min += int(fields['tz_min'])
+
+            try:
+                tz = FixedOffset(tz_min, {})
+            except ValueError as e:
+                raise ValidationError(string, "%%r: %r" % (e,))
+
         try:
             return time(int(fields['hr']), int(fields['min']),
-                                                   int(fields['sec']), microsec)
+                                               int(fields['sec']), microsec, tz)
         except ValueError as e:
             raise ValidationError(string, "%%r: %s" % e)
 
